@@ -45,6 +45,7 @@ type tierCfg struct {
 
 var tiers = map[string]tierCfg{
 	"C04": {QuickRuns: 64000, ThoroughRuns: 3200000, Workers: 16, Enum: true, EnumQuickStride: 1},
+	"C08": {QuickRuns: 1600, ThoroughRuns: 80000, Workers: 16},
 	"C12": {QuickRuns: 1600, ThoroughRuns: 80000, Workers: 16},
 	"C20": {QuickRuns: 1600, ThoroughRuns: 80000, Workers: 16},
 	"C13": {QuickRuns: 3200, ThoroughRuns: 160000, Workers: 16},
